@@ -538,6 +538,9 @@ def cone_order(spec):
     """(W as float array, real order object) for an EXACT_CONES / EXTRA_CONES name or {"theta": degrees}"""
     from harness.cones import real_order
 
+    if isinstance(spec, dict) and "rows" in spec:  # user cone given by its (exact) rows
+        W = np.asarray(spec["rows"], dtype=float)
+        return W, real_order(W.tolist())
     if isinstance(spec, dict) and "icecream" in spec:
         key = ("ice",) + tuple(spec["icecream"])
         if key not in _theta_orders:
@@ -687,6 +690,91 @@ def gen_placed_cases(seed):
     return [c for c in out if c is not None]
 
 
+NEG_USTAR_CONES = [{"rows": [[-1, 0], [1, 2]]}, {"rows": [[-2, 1], [1, 1]]},
+                   {"rows": [[-1.0, 0.0], [0.5, 0.8660254037844386]]}, {"rays": [60, 150]}]
+
+
+def _vogp_u_star(cone):
+    """u* of the cone as the real VOGP computes it"""
+    W, order = cone_order(cone)
+    a = stubs.build("VOGP", in_data=np.array([[0.0, 0.0], [0.125, 0.375]]), out_data=np.zeros((2, W.shape[1])),
+                    order=order, epsilon=1.0,
+                    model=stubs.ScriptedModel(np.array([[0.0, 0.0], [0.125, 0.375]]), np.zeros((2, W.shape[1])),
+                                              np.ones((2, W.shape[1]))))
+    return np.asarray(a.u_star, dtype=float)
+
+
+def gen_slack_sensitive_case(rng, alg, cone, coverable):
+    """tiny boxes; the other design sits at distance ≈ the ε-slack ε·u* of a cone whose u* has a NEGATIVE
+    coordinate, so that the verdict depends on the exact slack vector: `coverable=True`: p − ε·u* is inside the
+    cone (coverable) while p − max(ε·u*, 0) is outside; `coverable=False`: the reverse."""
+    W, _ = cone_order(cone)
+    u = _vogp_u_star(cone)
+    if u.min() >= -0.05:
+        return None
+    eps = rng.choice([0.5, 1.0, 2.0])
+    sv = eps * u
+    sc = np.clip(sv, 0.0, None)
+    h = eps / 2048.0
+    wn = np.abs(W).sum(axis=1)
+    for scale in (0.05, 0.1, 0.2, 0.4):
+        delta = scale * eps * u  # u* is interior to the cone
+        p = (sv if coverable else sc) + delta
+        m_true = W @ (p - sv)
+        m_clip = W @ (p - sc)
+        need = 12 * h * wn
+        ok = (np.all(m_true >= need) and np.any(m_clip <= -need)) if coverable else \
+            (np.any(m_true <= -need) and np.all(m_clip >= need))
+        if ok:
+            ci = np.array([core.dyadic(rng, -4, 4, 2) for _ in range(len(u))])
+            cj = ci + p
+            return {"kind": "placed", "shape": "slack-sensitive-" + ("covers" if coverable else "cannot"), "alg": alg,
+                    "cone": cone, "eps": float(eps), "n": 2, "S": [0, 1], "P": [],
+                    "lower": [list(map(float, ci - h)), list(map(float, cj - h))],
+                    "upper": [list(map(float, ci + h)), list(map(float, cj + h))], "enabled": True}
+    return None
+
+
+def gen_placed_multiround(rng, alg, cone, variant):
+    """two designs over two rounds; between the rounds only ONE bound of a region moves
+    ("upper-shrinks": lower kept bit-identical; "lower-rises": upper kept; "both"), and the move creates an
+    elimination certificate for design 0 in round 2 that did not exist in round 1."""
+    a = core.dyadic(rng, -8, 8, 2)
+    narrow = cone in ("acute2", "threefacet2")
+    A1, A2 = ([a, a + 1.5], [a, a + 0.5]) if narrow else ([a, a + 1.0], [a, a + 0.5])
+    B = [a + 1.6, a + 1.8] if narrow else [a + 0.6, a + 1.1]
+    if variant == "upper-shrinks":
+        r1 = ([A1, B]); r2 = ([A2, B])
+    elif variant == "lower-rises":
+        Bw = [a + 0.25, B[1]]
+        r1 = ([A2, Bw]); r2 = ([A2, B])
+    else:
+        r1 = ([A1, [B[0] - 0.25, B[1] + 0.25]]); r2 = ([A2, B])
+    def boxes(r):
+        return {"lower": [[b[0], b[0]] for b in r], "upper": [[b[1], b[1]] for b in r]}
+    return {"kind": "placed", "shape": "two-rounds-" + variant, "alg": alg, "cone": cone, "eps": 0.015625, "n": 2,
+            "S": [0, 1], "P": [], "rounds": [boxes(r1), boxes(r2)], "enabled": True}
+
+
+def gen_placed_cases2(seed):
+    """second deterministic list (separate generator so that the first list is unchanged)"""
+    import random
+
+    rng = random.Random(f"placed2:{seed}")
+    out = []
+    for alg, cones in (("VOGP", NEG_USTAR_CONES + OFFDIAG_CONES[1:2]), ("VOGP_AD", NEG_USTAR_CONES[:2])):
+        for cone in cones:
+            out.append(gen_slack_sensitive_case(rng, alg, cone, True))
+            out.append(gen_slack_sensitive_case(rng, alg, cone, False))
+    for alg, cones in (("PaVeBaGP-IH", ["orthant2", "acute2"]), ("PaVeBaPartialGP-rect", ["orthant2"]),
+                       ("VOGP", ["orthant2", "acute2", "threefacet2"]), ("EpsilonPAL", ["orthant2"]),
+                       ("VOGP_AD", ["orthant2"])):
+        for cone in cones:
+            for variant in ("upper-shrinks", "lower-rises", "both"):
+                out.append(gen_placed_multiround(rng, alg, cone, variant))
+    return [c for c in out if c is not None]
+
+
 def placed_algorithm(case):
     name, n = case["alg"], case["n"]
     W, order = cone_order(case["cone"])
@@ -722,30 +810,39 @@ def run_placed(ctx, case, prop):
         viol(ctx, f"crash:{name}.__init__:{core.exc_key(e)}", f"{name} constructor raised {type(e).__name__}: {e}", case)
         ctx.case_done(case, False)
         return
-    for i in range(case["n"]):
-        r = alg.design_space.confidence_regions[i]
-        r.lower = np.array(case["lower"][i], dtype=float)
-        r.upper = np.array(case["upper"][i], dtype=float)
     alg.S, alg.P = set(case["S"]), set(case["P"])
     if hasattr(alg, "U"):
         alg.U = set(case.get("U", []))
     trace = instrument(alg)
     phases = (["discarding", "epsiloncovering"] if is_pess(name) else ["discarding", "pareto_updating", "useful_updating"])
-    for ph in phases:
-        try:
-            getattr(alg, ph)()
-        except Exception as e:
-            viol(ctx, f"crash:{name}.{ph}:{core.exc_key(e)}", f"{name}.{ph}() raised {type(e).__name__}: {e}", case,
-                 kind="R")
-            ctx.case_done(case, False)
-            return
+    # one or several rounds: before each round the boxes of that round are written into the SAME region objects
+    # (between rounds only some bounds move — e.g. lower kept bit-identical while upper shrinks, as nested regions do)
+    rounds = case.get("rounds") or [{"lower": case["lower"], "upper": case["upper"]}]
     nt = False
-    try:
-        nt = check_round(ctx, case, prop, alg, trace, 0)
-    except RealCodeCrash as c:
-        viol(ctx, f"crash:{c.phase}:{core.exc_key(c.exc)}", f"{name}: the real {c.phase} raised "
-             f"{type(c.exc).__name__}: {c.exc} on displayed regions with the algorithm's own slack", case, kind="R")
-    ctx.case_done(case, bool(nt), canon=["placed", name, case["cone"], case["lower"], case["upper"], case["S"], case["P"]])
+    for rnd, boxes in enumerate(rounds):
+        if not alg.S:
+            break
+        for i in range(case["n"]):
+            r = alg.design_space.confidence_regions[i]
+            r.lower = np.array(boxes["lower"][i], dtype=float)
+            r.upper = np.array(boxes["upper"][i], dtype=float)
+        del trace[:]
+        for ph in phases:
+            try:
+                getattr(alg, ph)()
+            except Exception as e:
+                viol(ctx, f"crash:{name}.{ph}:{core.exc_key(e)}", f"{name}.{ph}() raised {type(e).__name__}: {e}", case,
+                     kind="R", detail={"round": rnd})
+                ctx.case_done(case, False)
+                return
+        try:
+            nt = check_round(ctx, case, prop, alg, trace, rnd) or nt
+        except RealCodeCrash as c:
+            viol(ctx, f"crash:{c.phase}:{core.exc_key(c.exc)}", f"{name}: the real {c.phase} raised "
+                 f"{type(c.exc).__name__}: {c.exc} on displayed regions with the algorithm's own slack", case, kind="R",
+                 detail={"round": rnd})
+            break
+    ctx.case_done(case, bool(nt), canon=["placed", name, case["cone"], rounds, case["S"], case["P"]])
 
 
 LATE_FACET_CONES = ["threefacet2", "orthantplus2", "fourfacet3", "pyramid3", {"icecream": [45, 4]},
@@ -823,11 +920,54 @@ def gen_latefacet_cases(seed):
     return [c for c in out if c is not None]
 
 
+def gen_nested_case(rng, alg, cone="orthant2"):
+    """real multi-round run in the documented nested-region mode of `RectangularConfidenceRegion`
+    (`intersect_iteratively=True`: R_t = R_{t−1} ∩ Q_t keeps the old lower bound bit-identical whenever the new box
+    starts lower) with a scripted posterior: design 0's box shrinks from above in round 2 and becomes dominated by
+    design 1's box, which does not move."""
+    W, order = cone_order(cone)
+    m = 2
+    X = [[0.0, 0.0], [0.125, 0.625]]
+    conf = {"PaVeBaGP-IH": 32, "PaVeBaPartialGP-rect": 16, "VOGP": 8, "EpsilonPAL": 8}[alg]
+    kw = {"conf_contraction": conf, "noise_var": 0.0625, "epsilon": 0.015625, "delta": 0.05}
+    cls = stubs.ScriptedModelList if alg.startswith("PaVeBaPartial") else stubs.ScriptedModel
+    okw = {} if alg == "EpsilonPAL" else {"order": order}
+    a_ = stubs.build(alg, in_data=X, out_data=np.zeros((2, m)), model=cls(np.array(X), np.zeros((2, m)), np.ones((2, m))),
+                     **okw, **kw)
+    scales = []
+    for r in (0, 1):
+        a_.round = r + (0 if is_pess(alg) else 1)
+        sc = a_.compute_beta() if is_pess(alg) else a_.compute_alpha()
+        scales.append(float(np.max(np.asarray(sc, dtype=float))))
+    a = core.dyadic(rng, -8, 8, 2)
+    # round 1: A = [a, a+1]², B = [a+.6, a+1.1]²; round 2 proposal for A: [a−.1, a+.5]² → displayed [a, a+.5]²
+    boxes = [[(a, a + 1.0), (a + 0.6, a + 1.1)], [(a - 0.1, a + 0.5), (a + 0.6, a + 1.1)]]
+    posts = []
+    for r in (0, 1):
+        means = [[(lo + hi) / 2.0] * m for (lo, hi) in boxes[r]]
+        sds = [[(hi - lo) / 2.0 / scales[r]] * m for (lo, hi) in boxes[r]]
+        posts.append({"means": means, "vars": [[x * x for x in row] for row in sds]})
+    return {"kind": "run", "shape": "nested-upper-shrinks", "alg": alg, "cone": cone, "eps": 0.015625, "delta": 0.05,
+            "n": 2, "in_data": X, "out_data": posts[0]["means"], "seed": rng.randrange(10 ** 6), "rounds": 2,
+            "noise_var": 0.0625, "conf": conf, "script": posts, "intersect": True, "mean_err": [[0.0, 0.0]] * 2}
+
+
+def gen_nested_cases(seed):
+    import random
+
+    rng = random.Random(f"nested:{seed}")
+    return [gen_nested_case(rng, alg) for alg in ("PaVeBaGP-IH", "PaVeBaPartialGP-rect", "VOGP", "EpsilonPAL")]
+
+
 def gen(ctx):
     rng = ctx.rng
     # structured first: every algorithm class × every table shape once
     if ctx.worker == 0:
         for c in gen_placed_cases(ctx.seed):
+            yield c
+        for c in gen_placed_cases2(ctx.seed):
+            yield c
+        for c in gen_nested_cases(ctx.seed):
             yield c
         for c in gen_latefacet_cases(ctx.seed):
             yield c
@@ -1202,6 +1342,18 @@ def build_run_algorithm(case):
             return stubs.build(name, problem=pr, order=order, model="fixed", **common)
         kw = {} if name == "EpsilonPAL" else {"order": order}
         return stubs.build(name, in_data=X, out_data=Y, model="fixed", **kw, **common)
+    if "script" in case:
+        # scripted posterior evolving with the model's update() calls; optional nested-region mode
+        posts = [(np.array(p_["means"], dtype=float), np.array(p_["vars"], dtype=float)) for p_ in case["script"]]
+        cls = stubs.ScriptedModelList if name.startswith("PaVeBaPartial") else stubs.ScriptedModel
+        script = posts[1:] if is_pess(name) else posts  # VOGP / ε-PAL model before their first update()
+        mdl = cls(X, posts[0][0], posts[0][1], script=script)
+        kw = {} if name == "EpsilonPAL" else {"order": order}
+        a = stubs.build(name, in_data=X, out_data=Y, model=mdl, **kw, **common)
+        if case.get("intersect"):
+            for r in a.design_space.confidence_regions:
+                r.intersect_iteratively = True
+        return a
     if "L" in case or "covs" in case:
         covs = case_covs(case)
         V = None
